@@ -37,8 +37,12 @@ func (e *Engine) verifyFunction(name string, spec *FuncSpec) (fc *FnCtx, err err
 		fc.assumptions["axiom "+ax.Name+": "+ax.Src] = true
 	}
 	// parameters
-	for _, p := range fn.Params {
-		v := fc.havocNamed(st, "in_"+p.Name(), p.Type())
+	for i, p := range fn.Params {
+		pname := p.Name()
+		if pname == "_" || pname == "" {
+			pname = fmt.Sprintf("arg%d", i) // blank parameters still need distinct symbols
+		}
+		v := fc.havocNamed(st, "in_"+pname, p.Type())
 		fr.env[p] = v
 	}
 	for _, fv := range fn.FreeVars {
